@@ -631,6 +631,11 @@ impl CpcSketch {
             )));
         }
 
+        if num_coupons == 0 {
+            // an empty image carries no HIP section: start from the state of a new sketch
+            kxp = (1u64 << lg_k) as f64;
+        }
+
         let uncompressed = compressed.uncompress(lg_k, num_coupons);
         Ok(CpcSketch {
             lg_k,
